@@ -304,6 +304,20 @@ class Interp:
                 ca = k.class_assigns().get(attr)
                 if ca is not None:
                     return self.eval_in_module(k.module, ca)
+                # annotated class attribute with a value (dataclass field default)
+                for st in k.node.body:
+                    if isinstance(st, ast.AnnAssign) and isinstance(st.target, ast.Name) and st.target.id == attr and st.value is not None:
+                        if isinstance(st.value, ast.Call) and (dotted(st.value.func) or "").split(".")[-1] == "field":
+                            df = next((kw.value for kw in st.value.keywords if kw.arg == "default_factory"), None)
+                            dv = next((kw.value for kw in st.value.keywords if kw.arg == "default"), None)
+                            if df is not None:
+                                v = self.apply(self.eval_in_module(k.module, df), [], {}, node)
+                                base.attrs[name] = v  # one object per instance
+                                return v
+                            if dv is not None:
+                                return self.eval_in_module(k.module, dv)
+                            break
+                        return self.eval_in_module(k.module, st.value)
             raise Undecided(f"attribute {attr} of {base.cls.name} object unknown")
         if isinstance(base, Class):
             ca = base.class_assigns()
